@@ -132,14 +132,14 @@ theorem histCalls_trace (edges : List (List ℝ)) (weighted : Bool) (ε maxsize 
     ((histCalls edges weighted ε maxsize).run D outs).inputs =
         (cellsOf (edges.map (fun e => e.length - 1))).map (fun cell => cellCount edges weighted cell D) := by
   rw [histCalls_eq, run_seq_cells _ _ _ (by simpa [histCells] using h)]
-  simp [histCells, List.map_map, Function.comp]
+  constructor <;> simp only [histCells, List.map_map, Function.comp_def]
 
 theorem privLoss_map_const (mc : MechCall ℝ) (cells : List (List Nat)) (f f' : List Nat → ℝ) :
     privLoss (cells.map (fun _ => mc)) (cells.map f) (cells.map f') =
       (cells.map (fun cell => mc.eps * relDisp mc (f cell) (f' cell))).sum := by
   induction cells with
   | nil => simp [privLoss]
-  | cons c cs ih => simp [privLoss, ih]
+  | cons c cs ih => simp only [List.map_cons, privLoss, List.sum_cons, ih]
 
 theorem dispOk_map_const (mc : MechCall ℝ) (cells : List (List Nat)) (f f' : List Nat → ℝ)
     (h : ∀ cell ∈ cells, relDisp mc (f cell) (f' cell) ≤ 1) :
